@@ -983,12 +983,13 @@ def _simplify_function_call(call: HplFunctionCall) -> HplExpression:
 
     elif fun.name == 'gcd':
         # FIXME compound single argument signature
-        arg1: HplExpression = _simplify(call.arguments[0])
-        arg2: HplExpression = _simplify(call.arguments[1])
-        if is_number_literal(arg1) and is_number_literal(arg2):
-            assert isinstance(arg1, HplLiteral)
-            assert isinstance(arg2, HplLiteral)
-            return HplLiteral.number(math.gcd(arg1.value, arg2.value))
+        if len(call.arguments) == 2:
+            arg1: HplExpression = _simplify(call.arguments[0])
+            arg2: HplExpression = _simplify(call.arguments[1])
+            if is_number_literal(arg1) and is_number_literal(arg2):
+                assert isinstance(arg1, HplLiteral)
+                assert isinstance(arg2, HplLiteral)
+                return HplLiteral.number(math.gcd(arg1.value, arg2.value))
 
     return call
 
